@@ -189,3 +189,18 @@ Theorem single_tile_chain :
     limit_tile g x y l = Some (x, y, l) ->
     cache_map_plan g (tile_bbox g x y l) (tw g) (th g) = Mosaic l (tile_bbox g x y l) 1 1 [Some (x, y, l)].
 Proof. exact single_tile_plan. Qed.
+
+(* Meta tiles (MetaGrid.meta_tile / TileSplitter): every tile of a meta tile is cut out of the meta image at the
+   column where its own tile_bbox lies inside the buffered meta bbox at the level resolution - exactly, for any
+   meta size and buffer and both origins, also when the buffer is cut at the left edge of the grid bbox.
+   _partial: only the x axis is proved.  Along y the same holds for grids numbered from the top; on grids numbered
+   from the south whose height is not a multiple of the pixel size the truncation int(round(delta/res, 5)) of the
+   buffer cut at the top edge displaces rows by less than one pixel (part of known finding
+   accumulated-subpixel-error; checked by the harness oracle meta-offset). *)
+Theorem meta_tile_georef_partial :
+  forall m x y l mb sz pats k tx ty tl ox oy,
+    wf (mg m) -> valid_level (mg m) l = true -> (0 < msx m)%Z -> (0 < msy m)%Z ->
+    meta_tile m x y l = (mb, sz, pats) ->
+    nth_error pats k = Some (Some (tx, ty, tl), (ox, oy)) ->
+    tl = l /\ fst (ul_offset_ground mb (tile_bbox (mg m) tx ty tl)) = (ox * res_at (mg m) l)%Z.
+Proof. exact meta_tile_georef_x. Qed.
